@@ -2,6 +2,7 @@
 package c08trunc
 
 import (
+	"sort"
 	"bytes"
 	"encoding/hex"
 	"encoding/json"
@@ -87,7 +88,7 @@ var decoders = []string{"message", "value", "reader", "opaque", "reflect", "meta
 func typeOpts() gen.TypeOpts {
 	return gen.TypeOpts{Depth: 3, Width: 3,
 		Leaves:  append(append([]ref.Kind{}, gen.AllScalars...), ref.KValue, ref.KString, ref.KString),
-		MapKeys: gen.KeyScalars, Structs: true, Tuples: true, Maps: true, Lists: true, Template: false, ZeroMem: true, CompositeKeys: true}
+		MapKeys: gen.KeyScalars, Structs: true, Tuples: true, Maps: true, Lists: true, Template: false, ZeroMem: true, CompositeKeys: true, Wide: true}
 }
 
 func genCase(t *rapid.T) Case {
@@ -144,7 +145,28 @@ func genCase(t *rapid.T) Case {
 	}
 	c.Sig = ty.Sig()
 	c.CutsFirst = rapid.Bool().Draw(t, "cutsfirst")
-	c.Hex = hex.EncodeToString(ref.Encode(ty, v))
+	enc := ref.Encode(ty, v)
+	c.Hex = hex.EncodeToString(enc)
+	if n := len(enc); n > 1200 {
+		// a long encoding (many members, long strings): every cut of the first
+		// and of the last 50 bytes, and a sample of those between (a decode of
+		// such a datum parses a signature of a thousand characters: milliseconds)
+		seen := map[int]bool{}
+		add := func(k int) {
+			if k >= 0 && k < n && !seen[k] {
+				seen[k] = true
+				c.Cuts = append(c.Cuts, k)
+			}
+		}
+		for k := 0; k < 50; k++ {
+			add(k)
+			add(n - 1 - k)
+		}
+		for i := 0; i < 60; i++ {
+			add(rapid.IntRange(50, n-50).Draw(t, "cut"))
+		}
+		sort.Ints(c.Cuts)
+	}
 	if dec == "reflect" && rapid.Bool().Draw(t, "useddest") {
 		c.Used = c.Hex
 	}
@@ -295,7 +317,7 @@ func checkCase(c Case) error {
 	}
 	nontrivialCuts := 0
 	cuts := c.Cuts
-	if c.BigLen == 0 {
+	if c.BigLen == 0 && len(cuts) == 0 {
 		cuts = make([]int, len(data))
 		for k := range cuts {
 			cuts[k] = k
